@@ -194,3 +194,22 @@ M('remap-shared-visited-once', 'C08', 'iterutils.py',
 M('getpath-set-off-by-one', 'C08', 'iterutils.py',
   "                        cur = next(itertools.islice(cur, seg, None))",
   "                        cur = next(itertools.islice(cur, seg if seg < 2 else seg - 1, None))")
+
+# ---------------------------------------------------------------- C10
+M('pq-readd-keeps-arrival', 'C10', 'queueutils.py',
+  "        if task in self._entry_map:\n            self.remove(task)\n        count = next(self._counter)",
+  "        old = self._entry_map.get(task)\n        if task in self._entry_map:\n            self.remove(task)\n        count = next(self._counter) if old is None or old[0] != priority else old[1]")
+M('pq-peek-no-cull', 'C10', 'queueutils.py',
+  "        try:\n            self._cull()\n            _, _, task = self._pq[0]",
+  "        try:\n            if len(self._pq) < 3:\n                self._cull()\n            _, _, task = self._pq[0]")
+M('pq-lifo-among-equals-when-large', 'C10', 'queueutils.py',
+  "        entry = [priority, count, task]", "        entry = [priority, count if count < 20000 else -count, task]")
+M('blist-balance-loses-boundary', 'C10', 'listutils.py',
+  "                self.lists.insert(next_list_idx, cur_list[-half_limit:])\n                del cur_list[-half_limit:]",
+  "                self.lists.insert(next_list_idx, cur_list[-half_limit:])\n                del cur_list[-half_limit - (1 if len(self.lists) > 6 else 0):]")
+M('blist-translate-negative', 'C10', 'listutils.py',
+  "        if index < 0:\n            index += len(self)\n        rel_idx, lists = index, self.lists",
+  "        if index < 0:\n            index += len(self)\n        if len(self.lists) > 3 and index == len(self.lists[0]):\n            index -= 1\n        rel_idx, lists = index, self.lists")
+M('pq-pop-default-swallows-task', 'C10', 'queueutils.py',
+  "            _, _, task = self._pop_entry(self._pq)\n            del self._entry_map[task]\n        except IndexError:\n            if default is not _REMOVED:\n                return default\n            raise IndexError('pop on empty queue')",
+  "            _, _, task = self._pop_entry(self._pq)\n            self._entry_map.pop(task, None) if default is _REMOVED else None\n        except IndexError:\n            if default is not _REMOVED:\n                return default\n            raise IndexError('pop on empty queue')")
